@@ -84,6 +84,18 @@ def _cn():
     return cn
 
 
+def _private(ctx, module, name):
+    """a quantem-PRIVATE name, resolved defensively: None (and a note in the evidence) when a refactoring removed it —
+    the internal-stage stream that needs it is skipped and the public-API streams decide"""
+    obj = getattr(module, name, None)
+    if obj is None:
+        ctx.extra.setdefault("private_names_missing", [])
+        tag = f"{module.__name__.rsplit('.', 1)[-1]}.{name}"
+        if tag not in ctx.extra["private_names_missing"]:
+            ctx.extra["private_names_missing"].append(tag)
+    return obj
+
+
 def err_name(e):
     n = type(e).__name__
     return n if n in ("ValueError", "TypeError", "IndexError") else "Other:" + n
@@ -763,7 +775,7 @@ def stream_norm(ctx, drv):
         if i < 2 * len(presets) or rng.chance(0.12):
             # a named preset exactly as _show_2d_array uses it
             name = presets[i % len(presets)] if i < 2 * len(presets) else rng.choice(presets)
-            c = cn._resolve_normalization(name)
+            c = cn.NORMALIZATION_PRESETS[name]()              # the public preset table (what show_2d(norm=<name>) resolves to)
             cfg = {k: getattr(c, k) for k in CFG_FIELDS}
             ctx.dist["norm:preset:" + name] += 1
         else:
@@ -1009,8 +1021,12 @@ def one_resolve(ctx, drv, case):
     arg = norm
     if kind == "config":
         arg = cn.NormalizationConfig(**norm)
+    resolver = _private(ctx, cn, "_resolve_normalization")
+    if resolver is None:
+        ctx.dist["resolve:skipped(private name gone)"] += 1
+        return
     try:
-        impl = {"ok": cfg_view(cn._resolve_normalization(arg, **kwargs))}
+        impl = {"ok": cfg_view(resolver(arg, **kwargs))}
     except Exception as e:  # noqa
         impl = {"err": err_name(e)}
     if kind == "none":
@@ -1142,27 +1158,43 @@ def one_show(ctx, drv, case):
     if case["kind"] == "config":
         norm_arg = cn.NormalizationConfig(**case["norm"])
     rec = {}
-    real_cn, real_a2r, real_l2r = vis.CustomNormalization, vis.array_to_rgba, vis.list_of_arrays_to_rgba
+    # internal-stage stream: it looks inside the private callers through three module-level names of visualization.py.
+    # If a refactoring removed / re-routed any of them the stream is skipped (note in the evidence); the public show_2d
+    # stream ("forms") and the CustomNormalization streams decide.
+    show_fn = _private(ctx, vis, "_show_2d_array" if case["which"] == "array" else "_show_2d_combined")
+    resolver = _private(ctx, cn, "_resolve_normalization")
+    hooks = [getattr(vis, n_, None) for n_ in ("CustomNormalization", "array_to_rgba", "list_of_arrays_to_rgba")]
+    if show_fn is None or resolver is None or any(h is None for h in hooks):
+        ctx.dist["show:skipped(private name gone)"] += 1
+        return
+    real_cn, real_a2r, real_l2r = hooks
 
     def rec_cn(*a, **k):
         rec["norm"] = real_cn(*a, **k)
         return rec["norm"]
 
-    def fake_a2r(scaled, angle=None, **k):
+    def fake_a2r(scaled, *a, **k):
         rec["scaled"] = [scaled]
         return np.zeros(tuple(np.shape(scaled)) + (4,))
 
-    def fake_l2r(lst, *, norm, chroma_boost=1):
-        rec["scaled"] = [norm(a) for a in lst]          # what list_of_arrays_to_rgba does first
+    def fake_l2r(lst, *a, **k):
+        nrm = k.get("norm", a[0] if a else None)
+        if callable(nrm):
+            rec["scaled"] = [nrm(x) for x in lst]       # what list_of_arrays_to_rgba does first
         return np.zeros(tuple(np.shape(lst[0])) + (4,))
 
     vis.CustomNormalization, vis.array_to_rgba, vis.list_of_arrays_to_rgba = rec_cn, fake_a2r, fake_l2r
     impl = {}
     try:
         if case["which"] == "array":
-            vis._show_2d_array(arrays[0], norm=norm_arg, figax=_figax(), **kwargs)
+            show_fn(arrays[0], norm=norm_arg, figax=_figax(), **kwargs)
         else:
-            vis._show_2d_combined(arrays, norm=norm_arg, figax=_figax(), **kwargs)
+            show_fn(arrays, norm=norm_arg, figax=_figax(), **kwargs)
+        if "norm" not in rec or "scaled" not in rec:
+            # the caller no longer builds / applies the normalisation through the hooked names: nothing observed
+            ctx.dist["show:skipped(hooks not reached)"] += 1
+            ctx.extra["show_hooks_not_reached"] = ctx.extra.get("show_hooks_not_reached", 0) + 1
+            return
         norm = rec["norm"]
         impl = {"stretch": type(norm.stretch).__name__, "interval": interval_view(norm.interval),
                 "attr_vmin": None if norm.vmin is None else float(norm.vmin), "attr_vmax": None if norm.vmax is None else float(norm.vmax),
@@ -1232,7 +1264,7 @@ def one_show(ctx, drv, case):
                     break
     # ---- property clauses on what the caller displays
     try:
-        rc = cn._resolve_normalization(norm_arg, **kwargs)
+        rc = resolver(norm_arg, **kwargs)
         cfg = {k: getattr(rc, k) for k in CFG_FIELDS}
     except Exception:  # noqa
         ctx.dist["show:outside-quantifier:unresolvable"] += 1
@@ -1409,6 +1441,344 @@ def stream_show(ctx, drv):
             plt.close(_FIG.pop("fa")[0])
 
 
+
+# ---------------------------------------------------------------------------------------
+# stream "shist": a HISTORY on one stretch object — build, read .inverse, assign another parameter (the stretches are
+# plain mutable dataclasses), read .inverse again, copy the object, …  The property quantifies over every stretch
+# parameter, hence also over the parameter the object carries NOW: S(S.inverse(y)) = y on [0, 1] must hold after
+# every step, and S.inverse must be the inverse a freshly built S(param) declares.
+
+HIST_STRETCH = {"PowerLawStretch": "power", "LogarithmicStretch": "logarithmic", "InverseLogarithmicStretch": None,
+                "InverseHyperbolicSineStretch": "asinh", "HyperbolicSineStretch": None}
+HIST_CN_KW = {"power": "power", "logarithmic": "logarithmic_index", "asinh": "asinh_linear_range"}
+
+
+def hist_param(rng, cls):
+    r = rng.random()
+    if cls == "PowerLawStretch":
+        return rng.choice([2, 0.5, 3.0, 1.0, 0.25]) if r < 0.4 else nice(rng, loguniform(rng, 0.2, 5))
+    if cls in ("LogarithmicStretch", "InverseLogarithmicStretch"):
+        return rng.choice([1000.0, 1, 10, 100]) if r < 0.3 else nice(rng, loguniform(rng, 1e-2, 1e4))
+    if cls == "InverseHyperbolicSineStretch":
+        return rng.choice([0.1, 1, 0.5]) if r < 0.3 else nice(rng, loguniform(rng, 1e-3, 1e2))
+    return rng.choice([1.0 / 3.0, 1, 0.5]) if r < 0.3 else nice(rng, loguniform(rng, 0.05, 50))
+
+
+def gen_shist_case(rng, i):
+    classes = sorted(HIST_STRETCH)
+    cls = classes[i % len(classes)]
+    hows = ["direct", "copy"] + (["norm"] if HIST_STRETCH[cls] else [])
+    how = hows[(i // len(classes)) % len(hows)]
+    params = []
+    while len(params) < rng.randint(2, 4):
+        v = hist_param(rng, cls)
+        if not params or float(v) != float(params[-1]):
+            params.append(v)
+    # a step may also be a REJECTED construction / a declared inverse that cannot be built, followed by valid steps
+    ys = [0.0, 1.0, 0.5] + [round(rng.random(), rng.randint(1, 5)) for _ in range(rng.randint(3, 9))]
+    return {"stream": "shist", "cls": cls, "how": how, "params": params, "ys": ys, "read_first": bool(i % 7 != 6)}
+
+
+def one_shist(ctx, drv, case):
+    import copy as _copy
+    import dataclasses
+    np = _np()
+    cn = _cn()
+    cls, how, params = case["cls"], case["how"], case["params"]
+    ys = np.array(case["ys"], dtype=np.float64)
+    ctx.count()
+    ctx.dist["shist:cls:" + cls] += 1
+    ctx.dist["shist:how:" + how] += 1
+    ctx.mark(("shist", cls, how, len(params), case["read_first"], tuple(type(p_).__name__ for p_ in params)))
+    try:
+        if how == "norm":
+            st = HIST_STRETCH[cls]
+            norm = cn.CustomNormalization("manual", st, vmin=0.0, vmax=1.0, **{HIST_CN_KW[st]: params[0]})
+            S = norm.stretch
+        else:
+            norm = None
+            S = getattr(cn, cls)(params[0])
+        field = dataclasses.fields(S)[0].name
+    except Exception as e:  # noqa
+        ctx.pred_fail(f"history-raises:{cls}", f"building an admissible stretch raised {err_name(e)}", case, observed=str(e)[:200], required="stretch object")
+        return
+    if type(S).__name__ != cls:
+        ctx.dist["shist:other-class-selected"] += 1        # power == 1.0 with a named type etc.: not this history
+        return
+    for k, p_ in enumerate(params):
+        step = {"step": k, "param": p_}
+        try:
+            if k > 0:
+                if how == "copy" and k == 1:
+                    S = _copy.copy(S)                       # the copy carries whatever the original has cached
+                setattr(S, field, p_)
+            elif not case["read_first"]:
+                continue                                    # parameter changed BEFORE the inverse is first read
+            if norm is not None and k > 0 and norm.stretch is not S:
+                norm.stretch = S
+            inv = S.inverse
+            inv_params = [float(getattr(inv, f.name)) for f in dataclasses.fields(inv)]
+            if norm is not None:
+                comp = np.ma.getdata(norm(np.asarray(norm.inverse(ys.copy())))).astype(np.float64).tolist()
+            else:
+                comp = [float(v) for v in S(inv(ys.copy())).tolist()]
+            fwd = [float(v) for v in S(ys.copy()).tolist()]
+        except Exception as e:  # noqa
+            ctx.pred_fail(f"history-raises:{cls}", f"stretch / declared inverse raised {err_name(e)} after an admissible parameter was assigned",
+                          case, observed=dict(step, error=str(e)[:200]), required="stretch(inverse(y)) = y")
+            return
+        m = drv.ask({"op": "stretch", "cls": cls, "params": [fbits(p_)], "xs": [fbits(v) for v in ys.tolist()]})
+        if str(m.get("err", "")).startswith("driver"):
+            raise RuntimeError(f"driver error {m}")
+        mo = m["ok"]
+        ctx.dist["shist:steps"] += 1
+        # correspondence with the (stateless) model evaluated at the parameter the object carries now
+        m_inv = [unbits(b) for b in mo["inv_params"]]
+        m_comp = [unbits(b) for b in mo["comp"]]
+        m_fwd = [unbits(b) for b in mo["ys"]]
+        if mo["inv_cls"] != type(inv).__name__ or any(not close(a, b, 1e-12, max(1.0, abs(a))) for a, b in zip(m_inv, inv_params)):
+            ctx.disagree("shist", case, dict(step, inverse=[mo["inv_cls"], m_inv]), dict(step, inverse=[type(inv).__name__, inv_params]),
+                         note="declared inverse after the parameter was assigned (model: the inverse of the current parameter)")
+        elif any(not close(a, b, 1e-9, 1.0) for a, b in zip(m_fwd, fwd)):
+            ctx.disagree("shist", case, dict(step, ys=m_fwd), dict(step, ys=fwd), note="S(y) after the parameter was assigned")
+        elif any(not close(a, b, 1e-9, 1.0) for a, b in zip(m_comp, comp)):
+            ctx.disagree("shist", case, dict(step, comp=m_comp), dict(step, comp=comp), note="S(S.inverse(y)) after the parameter was assigned")
+        # the property clause on the object as it is now
+        for y, c in zip(ys.tolist(), comp):
+            if 0.0 <= y <= 1.0:
+                ctx.stat_max("max_inverse_pair_residual_history", abs(c - y) if c == c else math.inf)
+                if not (abs(c - y) <= 1e-9):
+                    ctx.pred_fail(f"inverse-pair-history:{cls}", "stretch(inverse(y)) != y on [0, 1] for the parameter the stretch carries now "
+                                  "(inverse read, parameter assigned, inverse read again)", case,
+                                  observed=dict(step, y=y, **{"stretch(inverse(y))": c}, inverse=[type(inv).__name__, inv_params]), required=y)
+                    return
+    ctx.sample({"stream": "shist", "cls": cls, "how": how, "params": params}, limit=3)
+
+
+def stream_shist(ctx, drv):
+    for i in range(ctx.n(150, 3000)):
+        rng = ctx.rng.fork(6_000_000 + i)
+        one_shist(ctx, drv, gen_shist_case(rng, i))
+
+
+# ---------------------------------------------------------------------------------------
+# stream "nhist": a HISTORY on one CustomNormalization — build (frozen / lazy), then valid calls interleaved with operations
+# that are REJECTED (an assignment of a non-scalar / non-numeric colour limit that matplotlib refuses, a call on an argument
+# that cannot be normalised): the caller catches the error and carries on.  Every later valid call must still satisfy the
+# property (finite -> [0, 1], non-decreasing, NaN masked, limits -> 0 / 1) and equal the model of the unchanged object.
+
+BAD_VALUES = ["array2", "list2", "str", "complex", "tuple2", "array0"]
+BAD_ARGS = ["str-array", "none", "object-array", "all-nan"]
+HIST_INTERVALS = ["manual-both", "manual-auto", "manual-vmin", "quantile", "centered-auto", "centered-half"]
+
+
+def bad_value(kind):
+    np = _np()
+    return {"array2": np.array([4.0, 40.0]), "list2": [4.0, 40.0], "str": "auto", "complex": 1 + 2j, "tuple2": (1.0, 2.0),
+            "array0": np.array([])}[kind]
+
+
+def bad_arg(kind):
+    np = _np()
+    return {"str-array": np.array(["a", "b"]), "none": None, "object-array": np.array([{}, []], dtype=object),
+            "all-nan": np.array([np.nan, np.nan])}[kind]
+
+
+def hist_float_data(rng):
+    d = None
+    while d is None or d["dtype"] == "float32":
+        d = gen_data(rng)
+    return d
+
+
+def gen_nhist_case(rng, i):
+    np = _np()
+    data0 = hist_float_data(rng)
+    arr0 = build_array(data0)
+    # fixed block: interval kind x mode x rejected value x attribute are enumerated, not drawn
+    ik = HIST_INTERVALS[i % len(HIST_INTERVALS)]
+    mode = "frozen" if (i // len(HIST_INTERVALS)) % 2 == 0 else "lazy"
+    bv = BAD_VALUES[(i // (2 * len(HIST_INTERVALS))) % len(BAD_VALUES)]
+    attr = "vmin" if (i // (2 * len(HIST_INTERVALS) * len(BAD_VALUES))) % 2 == 0 else "vmax"
+    cfg = gen_cfg(rng, arr0)
+    flat = arr0.ravel()
+    fin = flat[np.isfinite(flat)] if flat.dtype.kind == "f" else flat
+    fmin, fmax = float(fin.min()), float(fin.max())
+    span = (fmax - fmin) or 1.0
+    for k_ in ("lower_quantile", "upper_quantile", "vmin", "vmax", "vcenter", "half_range"):
+        cfg[k_] = DEFAULT_CFG[k_]
+    if ik.startswith("manual"):
+        cfg["interval_type"] = "manual"
+        if ik in ("manual-both", "manual-vmin"):
+            cfg["vmin"] = nice(rng, fmin + span * rng.uniform(-0.2, 0.3))
+        if ik == "manual-both":
+            cfg["vmax"] = nice(rng, float(cfg["vmin"]) + span * rng.uniform(0.3, 1.2))
+    elif ik == "quantile":
+        cfg["interval_type"] = "quantile"
+        if rng.chance(0.5):
+            cfg["lower_quantile"], cfg["upper_quantile"] = round(rng.random() * 0.3, 2), round(1 - rng.random() * 0.3, 2)
+    else:
+        cfg["interval_type"] = "centered"
+        cfg["vcenter"] = rng.choice([0.0, nice(rng, fmin + span * rng.uniform(0, 1))])
+        if ik == "centered-half":
+            cfg["half_range"] = nice(rng, span * rng.uniform(0.3, 1.5)) or 1.0
+    if cfg["interval_type"] == "bogus" or cfg["stretch_type"] == "bogus" or selected_stretch(cfg) is None:
+        cfg["stretch_type"], cfg["power"] = rng.choice(["linear", "logarithmic", "asinh"]), 1.0
+        cfg["logarithmic_index"], cfg["asinh_linear_range"] = 1000.0, 0.1
+    ops = []
+    if rng.chance(0.5):
+        ops.append({"op": "call", "data": hist_float_data(rng)})
+    if rng.chance(0.3):
+        ops.append({"op": "inverse", "ys": [0.0, 0.5, 1.0, nice(rng, rng.random())]})
+    ops.append({"op": "bad-set", "attr": attr, "value": bv})
+    if rng.chance(0.4):
+        ops.append({"op": rng.choice(["bad-call", "bad-inverse"]), "value": rng.choice(BAD_ARGS)})
+    if rng.chance(0.3):
+        ops.append({"op": "bad-set", "attr": rng.choice(["vmin", "vmax"]), "value": rng.choice(BAD_VALUES)})
+    ops.append({"op": "call", "data": data0 if rng.chance(0.4) else hist_float_data(rng)})
+    if rng.chance(0.5):
+        ops.append({"op": "inverse", "ys": [0.0, 0.25, 1.0]})
+    if rng.chance(0.4):
+        ops.append({"op": "bad-call", "value": rng.choice(BAD_ARGS)})
+        ops.append({"op": "call", "data": hist_float_data(rng)})
+    return {"stream": "nhist", "cfg": cfg, "mode": mode, "data0": data0, "ops": ops}
+
+
+def one_nhist(ctx, drv, case):
+    np = _np()
+    cfg, mode = case["cfg"], case["mode"]
+    frozen = mode == "frozen"
+    arr0 = build_array(case["data0"])
+    ctx.count()
+    ctx.dist["nhist:mode:" + mode] += 1
+    ctx.dist["nhist:interval:" + cfg["interval_type"]] += 1
+    sel = selected_stretch(cfg)
+    linear = bool(sel) and sel[0] == "LinearStretch"
+    tol_out = 0.0 if linear else 1e-9
+    sig = f"{mode}:{cfg['interval_type']}:{sel[0] if sel else None}"
+    ctx.mark(("nhist", mode, cfg["interval_type"], tuple(k for k in ("vmin", "vmax", "half_range") if cfg[k] is not None), sel[0] if sel else None,
+              tuple((o["op"], o.get("attr"), o.get("value")) for o in case["ops"] if o["op"].startswith("bad"))))
+    try:
+        norm = make_norm(cfg, arr0 if frozen else None)
+    except Exception as e:  # noqa
+        ok0, _ = admissible(cfg, arr0)
+        if ok0:
+            ctx.pred_fail("raises:hist:" + sig, f"construction raised {err_name(e)} on an admissible array/configuration", case, observed=str(e)[:200],
+                          required="normalisation object")
+        return
+    data0_bits = [fbits(v) for v in arr0.ravel().tolist()]
+    rejected_so_far = []
+    for k, op in enumerate(case["ops"]):
+        kind = op["op"]
+        if kind == "bad-set":
+            try:
+                setattr(norm, op["attr"], bad_value(op["value"]))
+                ctx.dist["nhist:bad-set-accepted"] += 1
+                return                              # matplotlib accepted it: what the limits mean now is not for C20 to say
+            except Exception:  # noqa
+                ctx.dist["nhist:bad-set-rejected"] += 1
+                rejected_so_far.append(f"{op['attr']}={op['value']}")
+            continue
+        if kind in ("bad-call", "bad-inverse"):
+            try:
+                (norm if kind == "bad-call" else norm.inverse)(bad_arg(op["value"]))
+                ctx.dist[f"nhist:{kind}-accepted"] += 1
+            except Exception:  # noqa
+                ctx.dist[f"nhist:{kind}-rejected"] += 1
+                rejected_so_far.append(f"{kind}({op['value']})")
+            continue
+        step = {"step": k, "after_rejected": list(rejected_so_far)}
+        if kind == "inverse":
+            ys = np.array(op["ys"], dtype=np.float64)
+            req = {"op": "norm", "cfg": cfg_to_driver(cfg), "frozen": frozen, "is_bool": False, "data": data0_bits, "inv": [fbits(v) for v in op["ys"]]}
+            m = drv.ask(req)
+            if "ok" not in m or isinstance(m["ok"].get("inv_out"), str) or m["ok"].get("inv_out") is None:
+                continue                            # the model rejects this configuration / inverse: nothing to compare
+            try:
+                got = [float(v) for v in np.asarray(norm.inverse(ys)).ravel().tolist()]
+            except Exception as e:  # noqa
+                ctx.disagree("nhist", case, dict(step, inv_out="values"), dict(step, inv_out=err_name(e), msg=str(e)[:160]),
+                             note="CustomNormalization.inverse raises in a history where the model does not")
+                return
+            want = [unbits(b) for b in m["ok"]["inv_out"]]
+            sc = max([1.0] + [abs(x) for x in want if x == x and not math.isinf(x)])
+            if frozen and any(not close(a, b, 1e-9, sc) for a, b in zip(want, got)):
+                ctx.disagree("nhist", case, dict(step, inv_out=want), dict(step, inv_out=got), note="CustomNormalization.inverse values in a history")
+                return
+            continue
+        # ---- a valid call
+        arr = build_array(op["data"])
+        flat = arr.ravel()
+        xs = flat.tolist()
+        impl = {}
+        try:
+            out = norm(arr)
+            mask = np.ma.getmaskarray(out).ravel().tolist()
+            vals = np.ma.getdata(out).ravel().tolist()
+            impl["out"] = [None if mm else float(vv) for vv, mm in zip(vals, mask)]
+        except Exception as e:  # noqa
+            impl = {"err": err_name(e), "msg": str(e)[:200]}
+        if frozen:
+            req = {"op": "norm", "cfg": cfg_to_driver(cfg), "frozen": True, "is_bool": False, "data": data0_bits, "probe": [fbits(v) for v in xs]}
+        else:
+            req = {"op": "norm", "cfg": cfg_to_driver(cfg), "frozen": False, "is_bool": False, "data": [fbits(v) for v in xs]}
+        m = drv.ask(req)
+        if str(m.get("err", "")).startswith("driver"):
+            raise RuntimeError(f"driver error {m}")
+        ctx.dist["nhist:calls"] += 1
+        ctx.dist["nhist:call-outcome:" + (impl.get("err") or "ok")] += 1
+        # correspondence
+        if "err" in impl or "err" in m:
+            if impl.get("err") != m.get("err"):
+                ctx.disagree("nhist", case, dict(step, err=m.get("err")), dict(step, err=impl.get("err"), msg=impl.get("msg")),
+                             note="outcome of a valid call in a history (error kind)")
+        else:
+            mout = [unbits(b) for b in (m["ok"]["probe_out"] if frozen else m["ok"]["out"])]
+            bad = [j for j, (a, b) in enumerate(zip(mout, impl["out"])) if not close(a, b, tol_out, 1.0)]
+            if bad or len(mout) != len(impl["out"]):
+                j = bad[0] if bad else 0
+                ctx.disagree("nhist", case, dict(step, i=j, out=mout[j] if mout else None), dict(step, i=j, out=impl["out"][j] if impl["out"] else None),
+                             note=f"normalised pixel of a call in a history (tol {tol_out})")
+        # property clauses on this call (configuration + freezing array + argument inside the quantifier)
+        ok_c, why = admissible(cfg, arr0 if frozen else arr)
+        ok_a, why_a = admissible(dict(cfg, interval_type="manual", vmin=None, vmax=None), arr)
+        if not (ok_c and ok_a):
+            ctx.dist["nhist:outside-quantifier:" + (why or why_a)] += 1
+            continue
+        ctx.dist["nhist:inside-quantifier"] += 1
+        hsig = "hist:" + sig
+        if "err" in impl:
+            ctx.pred_fail("raises:" + hsig, f"a valid call raised {impl['err']} ({impl.get('msg')}) on an admissible array/configuration"
+                          + (f" after the rejected operation(s) {rejected_so_far}" if rejected_so_far else ""), case,
+                          observed=dict(step, error=impl["err"]), required="finite data mapped into [0, 1]")
+            return
+        t = slack(cfg, arr.dtype)
+        if not clauses_range_mono_nan(ctx, case, hsig, xs, impl["out"], t):
+            return
+        if frozen and "ok" in m:
+            lo, hi = unbits(m["ok"]["vmin"]), unbits(m["ok"]["vmax"])
+            rlo, rhi = norm.vmin, norm.vmax
+            if lo is not None and hi is not None and lo < hi and rlo is not None and rhi is not None:
+                ctx.dist["nhist:limits-clause-checked"] += 1
+                try:
+                    pr = norm(np.array([float(rlo), float(rhi)], dtype=np.float64))
+                    pv = [None if mm else float(vv) for vv, mm in zip(np.ma.getdata(pr).ravel().tolist(), np.ma.getmaskarray(pr).ravel().tolist())]
+                except Exception as e:  # noqa
+                    pv = err_name(e)
+                if isinstance(pv, str) or pv[0] is None or pv[1] is None or abs(pv[0]) > t or abs(pv[1] - 1.0) > t:
+                    ctx.pred_fail("limits:" + hsig, "the limits the normalisation reports (norm.vmin, norm.vmax) are not sent to 0 and 1"
+                                  + (f" after the rejected operation(s) {rejected_so_far}" if rejected_so_far else ""), case,
+                                  observed=dict(step, vmin=float(rlo), vmax=float(rhi), **{"norm([vmin, vmax])": pv}), required=[0.0, 1.0])
+                    return
+    ctx.sample({"stream": "nhist", "mode": mode, "cfg": {k: v for k, v in cfg.items() if v != DEFAULT_CFG[k]},
+                "ops": [[o["op"], o.get("attr"), o.get("value")] for o in case["ops"]]}, limit=4)
+
+
+def stream_nhist(ctx, drv):
+    for i in range(ctx.n(300, 4000)):
+        rng = ctx.rng.fork(7_000_000 + i)
+        one_nhist(ctx, drv, gen_nhist_case(rng, i))
+
 # ---------------------------------------------------------------------------------------
 
 def run(ctx):
@@ -1418,7 +1788,9 @@ def run(ctx):
     drv = Driver("C20")
     try:
         stream_stretch(ctx, drv)
+        stream_shist(ctx, drv)
         stream_norm(ctx, drv)
+        stream_nhist(ctx, drv)
         stream_resolve(ctx, drv)
         stream_show(ctx, drv)
     finally:
@@ -1433,13 +1805,14 @@ def replay(ctx, rep):
     if case is None:
         ds = rep.get("correspondence_disagreements") or rep.get("disagreements") or [{}]
         case = ds[0].get("case")
-    if not case or case.get("stream") not in ("norm", "stretch", "resolve", "show", "forms"):
+    if not case or case.get("stream") not in ("norm", "stretch", "resolve", "show", "forms", "shist", "nhist"):
         print("replay: no replayable case in file (tie-only report); re-running the quick streams")
         run(ctx)
         return True
     drv = Driver("C20")
     try:
-        {"norm": one_norm, "stretch": one_stretch, "resolve": one_resolve, "show": one_show, "forms": one_forms}[case["stream"]](ctx, drv, case)
+        {"norm": one_norm, "stretch": one_stretch, "resolve": one_resolve, "show": one_show, "forms": one_forms,
+         "shist": one_shist, "nhist": one_nhist}[case["stream"]](ctx, drv, case)
     finally:
         drv.close()
     return True
